@@ -18,6 +18,7 @@ type Event struct {
 	Results  []Value
 	Panicked bool
 	Index    int
+	Heap     map[string]Term // lock / recv events: the heap right after the event (for at(event, e))
 }
 
 type deferred struct {
@@ -52,8 +53,9 @@ type Frame struct {
 
 // headSnap: state at a loop head (after the invariant was assumed), for at_head(...) in iteration clauses.
 type headSnap struct {
-	heap map[string]Term
-	env  map[string]envEntry
+	heap   map[string]Term
+	env    map[string]envEntry
+	allocN int
 }
 
 type envEntry struct {
@@ -80,6 +82,7 @@ type State struct {
 	dead    bool
 	trail   []string // human-readable branch decisions (for reports)
 	written map[string]bool
+	conc    map[string]Sort // heap arrays that goroutines started on this path may write
 }
 
 func newState() *State {
@@ -97,6 +100,7 @@ func (st *State) clone() *State {
 		tokens:  make(map[string]Term, len(st.tokens)),
 		trail:   append([]string(nil), st.trail...),
 		written: make(map[string]bool, len(st.written)),
+		conc:    st.conc,
 	}
 	for k, v := range st.heap {
 		n.heap[k] = v
